@@ -483,6 +483,16 @@ impl<'a> Gen<'a> {
                 self.feature("shorthand-use");
                 let sh = self.r.pick(&self.shorthands.clone()).clone();
                 items.push(format!("{} = {}", sh, self.expr(Ty::Str, depth, false)));
+            } else if self.opts.universal && !self.in_shorthand && self.r.chance(1, 4) && !items.iter().any(|i: &String| i.starts_with("refs ")) {
+                // a comprehension whose element reads a scoped variable defined by another stanza (C08, C02)
+                match self.synlist_expr(false) {
+                    Some(src) => {
+                        self.feature("comprehension-over-scoped-read");
+                        let v = self.fresh("q");
+                        items.push(format!("refs = [ {}.gn for {} in {} ]", v, v, src));
+                    }
+                    None => items.push("flag".to_string()),
+                }
             } else {
                 let name = self.r.pick(&["k", "kind", "name", "val", "x-1", "flag", "n"]).to_string();
                 if self.r.chance(1, 6) {
@@ -964,7 +974,15 @@ impl<'a> Gen<'a> {
                     _ => v.clone(),
                 };
                 self.scopes.pop();
-                format!("{}node {}\n{}attr ({}) items = {{ {} for {} in {} }}, lit = {{1, 2, 1}}\n", pad, n, pad, n, body, v, src)
+                // a comprehension whose ELEMENT reads a scoped variable defined by another stanza: its evaluation must
+                // be deferred like any other lazy value (C08)
+                let extra = if self.opts.universal && el == Ty::Syn && !self.in_shorthand && self.r.chance(2, 3) {
+                    self.feature("comprehension-over-scoped-read");
+                    format!(", refs = [ {}.gn for {} in {} ]", v, v, src)
+                } else {
+                    String::new()
+                };
+                format!("{}node {}\n{}attr ({}) items = {{ {} for {} in {} }}, lit = {{1, 2, 1}}{}\n", pad, n, pad, n, body, v, src, extra)
             }
         }
     }
@@ -1078,6 +1096,22 @@ pub fn gen_program(r: &mut Rng, pool: &[Pattern], opts: &Opts) -> Program {
     if universal {
         g.feature("universal-definer");
         stanzas.push("(_) @any {\n  node @any.gn\n}\n".to_string());
+        if g.r.chance(1, 2) {
+            // comprehensions whose element reads what the universal definer defines (C08: must be deferred)
+            g.feature("comprehension-over-scoped-read");
+            if g.r.chance(1, 2) {
+                // definer and reader on the SAME node: in lazy mode only the stanza order separates their matches
+                let (pat, cap) = *g.r.pick(&[("(block (_)+ @{})", "stmts"), ("(module (_)* @{})", "tops"), ("(argument_list (_)* @{})", "args")]);
+                let val = *g.r.pick(&["(node-type s)", "(source-text s)", "(start-row s)"]);
+                stanzas.push(format!("{} {{\n  for s in @d{} {{\n    let s.txt = {}\n  }}\n}}\n", pat.replace("{}", &format!("d{}", cap)), cap, val));
+                stanzas.push(format!("{} @_rd {{\n  node cr2\n  attr (cr2) texts = [ s.txt for s in @r{} ], more = {{ [s.txt, 1] for s in @r{} }}\n}}\n", pat.replace("{}", &format!("r{}", cap)), cap, cap));
+            }
+            stanzas.push(match g.r.below(3) {
+                0 => "(block (_)+ @cstmts) @_cblk {\n  node cr\n  attr (cr) refs = [ q.gn for q in @cstmts ], n = (length @cstmts)\n}\n",
+                1 => "(module (_)* @ctops) @_cm {\n  node cr\n  for t in @ctops {\n    edge cr -> t.gn\n  }\n  attr (cr) refs = [ q.gn for q in @ctops ]\n}\n",
+                _ => "(argument_list (_)* @cargs) @_cal {\n  node cr\n  attr (cr) refs = [ [q.gn] for q in @cargs ]\n}\n",
+            }.to_string());
+        }
     }
     if opts.scoped_heavy {
         g.feature("scoped-heavy");
